@@ -64,6 +64,53 @@ theorem C14_segment_integral (x0 x1 y0 y1 : ℝ) (hx : x0 ≠ x1) :
   field_simp
   ring
 
+/-- `f` agrees on every segment `[x_i, x_{i+1}]` with the linear interpolant of the table -/
+def IsInterp (f : ℝ → ℝ) : List ℝ → List ℝ → Prop
+  | x0 :: x1 :: xs, y0 :: y1 :: ys =>
+    (∀ t ∈ Set.uIcc x0 x1, f t = y0 + (y1 - y0) / (x1 - x0) * (t - x0)) ∧
+      IsInterp f (x1 :: xs) (y1 :: ys)
+  | _, _ => True
+
+private theorem seg_integrable (f : ℝ → ℝ) (x0 x1 y0 y1 : ℝ)
+    (h : ∀ t ∈ Set.uIcc x0 x1, f t = y0 + (y1 - y0) / (x1 - x0) * (t - x0)) :
+    IntervalIntegrable f MeasureTheory.volume x0 x1 := by
+  have haff : IntervalIntegrable (fun t : ℝ => y0 + (y1 - y0) / (x1 - x0) * (t - x0))
+      MeasureTheory.volume x0 x1 :=
+    (continuous_const.add (continuous_const.mul (continuous_id.sub continuous_const))).intervalIntegrable _ _
+  refine haff.congr ?_
+  exact fun t ht => (h t (Set.uIoc_subset_uIcc ht)).symm
+
+/-- **integrate_column equals the integral of the piecewise-linear interpolant**: for every grid
+with distinct neighbouring coordinates (increasing, decreasing or mixed) and every function `f`
+that is the linear interpolant of `(x, y)` on each segment, `f` is interval integrable from the
+first to the last grid point and its integral is `trapz x y`. -/
+theorem C14_trapz_is_integral (f : ℝ → ℝ) : ∀ (x y : List ℝ) (hne : x ≠ []),
+    x.length = y.length → x.IsChain (· ≠ ·) → IsInterp f x y →
+    IntervalIntegrable f MeasureTheory.volume (x.head hne) (x.getLast hne) ∧
+      ∫ t in (x.head hne)..(x.getLast hne), f t = trapz x y := by
+  intro x
+  induction x with
+  | nil => intro y hne; exact absurd rfl hne
+  | cons x0 xs ih =>
+    intro y hne hlen hch hint
+    rcases xs with _ | ⟨x1, xs'⟩
+    · simp
+    · rcases y with _ | ⟨y0, _ | ⟨y1, ys'⟩⟩
+      · simp at hlen
+      · simp at hlen
+      · obtain ⟨hseg, hrest⟩ := hint
+        have hx01 : x0 ≠ x1 := (List.isChain_cons_cons.mp hch).1
+        have hch' := (List.isChain_cons_cons.mp hch).2
+        obtain ⟨hI, hint'⟩ := ih (y1 :: ys') (by simp) (by simpa using hlen) hch' hrest
+        have h01 := seg_integrable f x0 x1 y0 y1 hseg
+        have hval : ∫ t in x0..x1, f t = (x1 - x0) * (y0 + y1) / 2 := by
+          rw [intervalIntegral.integral_congr (g := fun t => y0 + (y1 - y0) / (x1 - x0) * (t - x0))
+            (fun t ht => hseg t ht)]
+          exact C14_segment_integral x0 x1 y0 y1 hx01
+        simp only [List.head_cons, List.getLast_cons_cons] at hI hint' ⊢
+        refine ⟨h01.trans hI, ?_⟩
+        rw [← intervalIntegral.integral_add_adjacent_intervals h01 hI, hval, hint', trapz_cons_cons]
+
 /-! ## integrated water vapour -/
 
 local notation "g₀" => C.earth_standard_gravity
@@ -93,31 +140,31 @@ private theorem roundtrip_q (q : List ℝ) (hq : ∀ v ∈ q, 0 ≤ v ∧ v < 1)
 
 /-- column relative humidity is the ratio of the two pressure integrals of `q` and `q_s` -/
 theorem C14_crh_ratio (qsat : ℝ → ℝ → ℝ) (q p t : List ℝ) (hq : ∀ v ∈ q, 0 ≤ v ∧ v < 1)
-    (hs : ∀ v ∈ List.zipWith qsat t p, 0 ≤ v ∧ v < 1) :
+    (hs : ∀ v ∈ List.zipWith qsat t p, 0 ≤ v ∧ v < 1)
+    (h0 : trapz p (List.zipWith qsat t p) ≠ 0) :
     crh TR.specific_humidity2vmr TR.vmr2specific_humidity qsat g₀ q p t
       = trapz p q / trapz p (List.zipWith qsat t p) := by
   unfold crh iwvHydro
   rw [roundtrip_q q hq, roundtrip_q _ hs]
   have hg := C.earth_standard_gravity_pos
-  by_cases h0 : trapz p (List.zipWith qsat t p) = 0
-  · simp [h0]
-  · field_simp
+  field_simp
 
 /-- a profile saturated with respect to the (mixed-phase) saturation humidity has CRH = 1 -/
 theorem C14_crh_saturated (qsat : ℝ → ℝ → ℝ) (p t : List ℝ)
     (hs : ∀ v ∈ List.zipWith qsat t p, 0 ≤ v ∧ v < 1)
     (hne : trapz p (List.zipWith qsat t p) ≠ 0) :
     crh TR.specific_humidity2vmr TR.vmr2specific_humidity qsat g₀ (List.zipWith qsat t p) p t = 1 := by
-  rw [C14_crh_ratio qsat _ p t hs hs]
+  rw [C14_crh_ratio qsat _ p t hs hs hne]
   exact div_self hne
 
 /-- … and CRH scales linearly with `q` (as long as `a·q` stays a valid specific humidity) -/
 theorem C14_crh_linear (qsat : ℝ → ℝ → ℝ) (a : ℝ) (q p t : List ℝ)
     (hq : ∀ v ∈ q, 0 ≤ v ∧ v < 1) (haq : ∀ v ∈ q.map (a * ·), 0 ≤ v ∧ v < 1)
-    (hs : ∀ v ∈ List.zipWith qsat t p, 0 ≤ v ∧ v < 1) :
+    (hs : ∀ v ∈ List.zipWith qsat t p, 0 ≤ v ∧ v < 1)
+    (hne : trapz p (List.zipWith qsat t p) ≠ 0) :
     crh TR.specific_humidity2vmr TR.vmr2specific_humidity qsat g₀ (q.map (a * ·)) p t
       = a * crh TR.specific_humidity2vmr TR.vmr2specific_humidity qsat g₀ q p t := by
-  rw [C14_crh_ratio qsat _ p t haq hs, C14_crh_ratio qsat q p t hq hs, trapz_smul]
+  rw [C14_crh_ratio qsat _ p t haq hs hne, C14_crh_ratio qsat q p t hq hs hne, trapz_smul]
   ring
 
 /-! ## pressure2height -/
@@ -235,5 +282,5 @@ example : trapz ([0, 1, 3] : List ℝ) [1, 1, 1] = 3 := by simp; norm_num
 example : ((unitGrid 0 3 : List ℝ)) = [0, 0 + 1, 0 + 1 + 1] := by simp [unitGrid]
 
 assert_axioms C14_trapz_linear C14_trapz_split C14_trapz_reverse C14_trapz_unit_spacing
-  C14_segment_integral C14_iwv_nonneg C14_crh_ratio C14_crh_saturated C14_crh_linear C14_p2h_zero
+  C14_segment_integral C14_trapz_is_integral C14_iwv_nonneg C14_crh_ratio C14_crh_saturated C14_crh_linear C14_p2h_zero
   C14_p2h_strictMono C14_density_pos C14_interp_nodes
